@@ -25,7 +25,8 @@ RULE = ("E1: every document with <= 3 nodes (C01 alphabet; n=4 by stride) x "
         "every order, matched set = union of the operands' matches (a lone "
         "Collector gathering one sequence = its elements); slices that can "
         "hold no element (reversed, at/past the end) through delete and set "
-        "must change nothing. "
+        "must change nothing; a Collector gathering the root next to other "
+        "nodes must be refused with nothing deleted. "
         "E2: Hypothesis documents with anchors x derived paths. "
         "Non-trivial = >= 2 matched positions, or an empty-container / "
         "nested / negative-index / repeated target; distinct by (document, "
@@ -252,6 +253,7 @@ def run_shard(shard):
         _run_collect(shard, res, dl)
     elif shard["kind"] == "empty-slice":
         _run_empty_slices(res)
+        _run_root_in_collector(res)
     else:
         _run_hyp(shard, res, dl)
     return res
@@ -266,6 +268,43 @@ COLLECT_EXTRA = [
     ["M", [["a", ["M", [["a", ["S", 1, None]], ["b", ["S", 2, None]]], None]],
            ["b", ["L", [["S", 1, None], ["S", 2, None]], None]]], None],
 ]
+
+
+def _run_root_in_collector(res):
+    """A Collector that gathers the document root next to other nodes:
+    the delete must be refused and nothing - not even the other operands'
+    nodes - may be gone."""
+    from yamlpath.exceptions import YAMLPathException
+    # (a Hash root only: a gathered Array stands for its elements)
+    for text in ("a:\n  - 1\n  - 2\nb: 9\n", "b: 1\n"):
+        for ptext in ("(/)+(/b)", "(/b)+(/)", "(/)+(/a[0])", "(/)"):
+            doc, _ = gdocs.load(text)
+            before = canon(doc)
+            res.evaluations += 1
+            case = {"doc": text, "text": ptext, "root-in-collector": True}
+            try:
+                for _ in real.processor(doc).delete_nodes(real.ypath(ptext)):
+                    pass
+                raised = False
+            except YAMLPathException:
+                raised = True
+            except Exception as exc:
+                etype, frame, src = exc_site(exc)
+                res.fail({"clause": "no-crash", "exc": etype, "frame": frame,
+                          "shape": "root-in-collector"}, case,
+                         "%s: %s" % (etype, exc))
+                continue
+            if canon(doc) != before:
+                res.fail({"clause": "root-delete-changes-nothing",
+                          "shape": "root-in-collector", "raised": raised},
+                         case, "before %s after %s" % (
+                             json.dumps(before), json.dumps(canon(doc))))
+                continue
+            if not raised:
+                res.label("root-in-collector:no-match")
+                continue
+            res.nontrivial()
+            res.label("root-in-collector:refused")
 
 
 def _run_empty_slices(res):
@@ -403,6 +442,9 @@ def _run_hyp(shard, res, dl):
 def replay(case):
     res = Result()
     entries = (case["entry"],) if "entry" in case else ("delete", "gather")
+    if case.get("root-in-collector"):
+        _run_root_in_collector(res)
+        return [r for _, recs in res.failures.values() for r in recs]
     if case.get("empty-slice"):
         _run_empty_slices(res)
         return [r for _, recs in res.failures.values() for r in recs]
